@@ -52,8 +52,8 @@ PART["C11"] = {
     "runs": [{"name": "streams", "pkg": P, "run": "^TestVF_C11", "timeout": "30m", "timeout_thorough": "90m", "race_thorough": True}],
     "rule": "the real callbackStore stack (base store -> scheme store -> append store -> callback store, as newChainStore builds it) on bolt-trimmed / bolt-untrimmed / memdb (ring full or not), "
             "chained and unchained, pre-filled, served by the real SyncChain to consumers whose Send is gated; chosen interleavings: quiet, appends while the scan is parked in its k-th Send, appends while "
-            "the stream is parked at the scan->live hand-over (hook syncchain.handover), both, two concurrent streams, reconnect from the same address (replacement); start rounds 0 / head / window start / "
-            "middle; oracle: delivered rounds = from, from+1, ... store head at quiescence, bytes equal to the stored beacons. non-trivial = at least one append landed inside the catch-up phase "
+            "the stream is parked at the scan->live hand-over (hook syncchain.handover), both, two concurrent streams, reconnect from the same address (replacement), stall in the live phase with a burst larger "
+            "than the callback queue; start rounds 0 / head / window start / middle / beyond the head (a refusal is legal; an accepted stream owes the requested round first); oracle: delivered rounds = from, from+1, ... store head at quiescence, bytes equal to the stored beacons. non-trivial = at least one append landed inside the catch-up phase "
             "(or quiet/two-stream baseline); distinct = distinct case parameters",
     "assumptions": ["streams that ended (replaced / errored) are exempt from completeness, not from order"],
     "race_anchors": ["callbackStore"],
@@ -86,7 +86,7 @@ PART["C07"] = {
     "rule": "handler-level reshare without DKG: the harness re-shares the group secret (new polynomial, same constant term) and makes core's calls (TransitionNewGroup on remainers, new Handler+Catchup on "
             "joiners, StopAt on leavers) for shapes {same, add, remove, replace, threshold up, threshold down}, reshare issued at round 3-6 with the transition 2-4 rounds later, optional outage of one "
             "remainer across the transition or 15% loss, 1-2 epochs; oracles: C01/C02 store oracles across the transition with the ORIGINAL public key, bounded progress of every running new-group member "
-            "after the transition, and partials signed with previous-group shares (incl. leavers') sent to nodes whose vault has switched must not be answered with success. distinct = distinct case",
+            "after the transition, and partials signed with previous-group shares (incl. leavers') sent to nodes whose vault has switched must not appear in that node's aggregator cache (hook), and every beacon a node AGGREGATES for a round at or after the transition must be backed by threshold-1 other members' partials, handed to that node, that the harness verified under the NEW group's public polynomial (the node's own is granted; with a late registration the new group governs from the following round). distinct = distinct case",
     "assumptions": ["the handler-level layer does not exercise the DKG itself (dkg and daemon engines do)"],
 }
 
